@@ -847,7 +847,12 @@ def run_and_check(ctx, E, binary, job, drv_jobs):
     its = split_iterations(res["trace"])
     for it in its:
         it["plot"] = bool(c.get("plot"))
-    if len(its) != c.get("iters", 2):
+    if res.get("trace_truncated"):
+        # the bounded read stopped inside an iteration: that iteration is incomplete in OUR copy of the
+        # trace, not in the run (it exited normally); only the complete iterations are evaluated
+        ctx.branch("trace-truncated-at-%d-lines" % MAX_TRACE_LINES)
+        its = its[:-1]
+    elif len(its) != c.get("iters", 2):
         ctx.broken_obligation("photon trace of %s has %d iterations, expected %d (hook H2 missing?)" % (what, len(its), c.get("iters", 2)), res["log"][-400:])
         return
     ctx.distinct((tuple(c["layout"]), tuple(c["per"]), c["N"], c.get("copy", 0), c.get("mode"), bool(c.get("diffuse")), threads, jitter, noserial, bool(c.get("plot"))),
@@ -1116,7 +1121,10 @@ def replay(ctx, path):
         elif res["rc"] != 0:
             bad = [("photon:run-failed", "exit status %d" % res["rc"])]
         else:
-            for it in split_iterations(res["trace"]):
+            rits = split_iterations(res["trace"])
+            if res.get("trace_truncated"):
+                rits = rits[:-1]
+            for it in rits:
                 bad += trace_oracles(E, it) + identity_oracles(it)
         print("try %d (jitter %s): %s" % (k, jit, bad[:3] if bad else "clean"))
         if bad:
